@@ -92,7 +92,8 @@ def _run(args):
         obj = Sv.HybridRSPNewtonSchulz(r=cfg["block"], p=cfg["p"], T=cfg["T"], tol=tol, max_iter=cfg["max_iter"], column_solver=cfg["solver"])
         call = obj.compute
     else:
-        obj = Sv.CGNEQSolver(tol=tol, max_iter=cfg["max_iter"], preconditioner_rank=cfg.get("prec", 0), seed=cfg.get("pseed"))
+        pr = cfg.get("prec", 0)
+        obj = Sv.CGNEQSolver(tol=tol, max_iter=cfg["max_iter"], preconditioner_rank=(n if pr == "n" else pr), seed=cfg.get("pseed"))
         call = obj.compute
     before = copy.deepcopy(vars(obj))
     # ---- observe (and optionally fault-inject) the micro-solvers by wrapping them from the harness
@@ -183,7 +184,7 @@ def _run(args):
          "last_le_tol": bool(hist and hist[-1] <= tol), "last_lg": lg(hist[-1]) if hist else -100000,
          "proxy_known": bool(proxy_known), "proxy_true_lg": lg(proxy_true) if proxy_known else 0,
          "true_res_lg": lg(true_res), "dist_lg": lg(dist),
-         "expect_converge": bool(kind == "cgne" and cfg.get("prec", 0) == 0 and cond <= 1e3 and cfg.get("max_iter", 0) >= 400 and tol >= 1e-8),
+         "expect_converge": bool(kind == "cgne" and cfg.get("prec", 0) in (0,) and cond <= 1e3 and cfg.get("max_iter", 0) >= 400 and tol >= 1e-8),
          "hist_nonincreasing": bool(all(hist[i + 1] <= hist[i] * (1 + 1e-9) + 1e-15 for i in range(len(hist) - 1))),
          "config_unchanged": bool(set(before) == set(after) and all(before[k] == after[k] for k in before)),
          "micro": dict(micro), "updates": int(micro["spd_ok"] + micro["spd_fail"] + micro["qr"]) if kind in ("rsp", "rsp_col", "rsp_row") else -1,
@@ -215,6 +216,7 @@ def run(ctx, replay=None):
             ("rsp", {"block": 1, "solver": "spd", "max_iter": 400, "test": 1}),
             ("hybrid", {"block": 2, "p": 4, "T": 3, "solver": "qr", "max_iter": 120}),
             ("cgne", {"max_iter": 500}),
+            ("cgne", {"max_iter": 120, "prec": "n", "pseed": 3}),       # randomized preconditioner of full rank n
             # fault sequences: the CG micro-solver reports failure every 2nd call (Newton-Schulz fallback path),
             # the thin QR raises every 3rd call (the step is skipped)
             ("rsp_col", {"block": 2, "solver": "spd", "max_iter": 300, "inject": {"spd_fail_every": 2}}),
@@ -259,7 +261,7 @@ def run(ctx, replay=None):
         ctx.case((e["tid"],))
     ctx.replays = len(events)
     ctx.notes["runs_converged"] = sum(1 for e in events if e["converged"])
-    pre = [e for e in events if e["solver"] == "cgne" and e["cfg"].get("prec", 0) > 0]
+    pre = [e for e in events if e["solver"] == "cgne" and e["cfg"].get("prec", 0) not in (0,)]
     if pre:
         ctx.notes["observation_cgne_with_randomized_preconditioner"] = {"runs": len(pre), "not_converged": sum(1 for e in pre if not e["converged"]), "history_increasing": sum(1 for e in pre if not e["hist_nonincreasing"]), "note": "preconditioner_rank > 0 is outside the property's quantifier (deterministic CGNE); recorded, not judged"}
     ctx.notes["runs_with_proxy_recomputed"] = sum(1 for e in events if e["proxy_known"])
